@@ -762,7 +762,11 @@ class CellsImpl(*_cells_impl_base):
         if self.is_cached:
             return self._store_value(key, self.altfunc.fresh.altfunc(*key))
         else:
-            return self.altfunc.fresh.altfunc(*key)
+            value = self.altfunc.fresh.altfunc(*key)
+            if value is None and not self.get_property("allow_none"):
+                # Refused as it would be if the cells were cached
+                raise NoneReturnedError(get_node_repr((self, key, None)))
+            return value
 
     def get_value(self, args, kwargs=None):
         node = get_node(self, args, kwargs)
